@@ -128,7 +128,7 @@ static char *model_servers(const cfg_srv_t *s, int n, int how, unsigned chan_udp
     }
     ares_inet_ntop(s[i].family, s[i].addr, buf, sizeof(buf));
     vh_sb_printf(&sb, "%c:%s|u%u|t%u|%%%s|s%u;", s[i].family == AF_INET ? '4' : '6', buf, udp, tcp,
-                 ll ? s[i].iface : "", ll ? __wrap_if_nametoindex(s[i].iface) : 0);
+                 ll ? s[i].iface : "", ll ? cfg_if_index(s[i].iface) : 0);
   }
   return cfg_sb_take(&sb);
 }
@@ -301,6 +301,32 @@ static void prof_roundtrip(vh_rng_t *r, const vh_args_t *a)
     CNT("roundtrip_init_error");
     RT_V("cfg16:roundtrip:init-failed", "ares_init_options rc=%d for %s | %s", rc, uo, w);
     goto done;
+  }
+
+  /* an application with its own socket functions may know interfaces the OS does not */
+  cfg_private_ifaces = 0;
+  if (ll_ok && vh_chance(r, 1, 3)) {
+    int which = (int)vh_below(r, 3);
+    if (which != 0) {
+      /* a rejected call leaves the functions in place (the defaults, or ours from a previous call) */
+      int rj = cfg_install_private_ifaces(ch, 1);
+      CNT("roundtrip_incomplete_socket_functions_rejected");
+      if (rj == ARES_SUCCESS) {
+        RT_V("cfg16:setter:socket-functions:incomplete-accepted", "ares_set_socket_functions_ex without asetsockopt returned %d", rj);
+      }
+    }
+    if (which != 1) {
+      int ok = cfg_install_private_ifaces(ch, 0);
+      if (ok == ARES_SUCCESS) {
+        cfg_private_ifaces = 1;
+        CNT("roundtrip_private_interface_functions");
+      } else {
+        RT_V("cfg16:setter:socket-functions:rejected-valid", "ares_set_socket_functions_ex returned %d", ok);
+      }
+      if (which == 2 && vh_chance(r, 1, 2)) {
+        (void)cfg_install_private_ifaces(ch, 1); /* rejected: ours stay */
+      }
+    }
   }
 
   /* ---- setters */
@@ -479,6 +505,10 @@ csv:
     cfg_sys_init(&empty);
     cfg_sys_apply(&empty);
     fr = ares_init_options(&ch2, NULL, 0);
+    if (fr == ARES_SUCCESS && cfg_private_ifaces) {
+      /* the same application: the same interface knowledge */
+      (void)cfg_install_private_ifaces(ch2, 0);
+    }
     if (fr == ARES_SUCCESS) {
       const char *csv = cfg_eff_get(&e0, "p.csv");
       int         sr  = ares_set_servers_ports_csv(ch2, csv);
@@ -568,6 +598,7 @@ done:
   if (ch) {
     ares_destroy(ch);
   }
+  cfg_private_ifaces = 0;
   cfg_lib_end("after ares_destroy + ares_library_cleanup", &sys);
   /* distinct = (option mask, server-encoding class, setter, sysconfig directive set) */
   cfg_case_fp = vh_fnv_u64(cfg_case_fp, (uint64_t)(u.use_null ? 0xffffffffu : (unsigned)u.mask));
